@@ -108,9 +108,53 @@ def run_check(pid, tier, seed, replay=None):
         results = spawn_shards(mod, tier, seed, nshards, cases, tmp, ext_path, flavour,
                                only=only, only_shard=only_shard,
                                budget=conf.get("budget"), timeout=conf.get("timeout", 3600))
-        return conclude(mod, tier, seed, results, t0, replay=replay, tmp=tmp)
+        sv, sc, si = [], None, []
+        if tier == "thorough" and not replay and pid in SUITE_PROPS:
+            sv, sc, si = suite_run(pid, seed, tmp, ext_path, flavour)
+        return conclude(mod, tier, seed, results, t0, replay=replay, tmp=tmp, extra_violations=sv, extra_cov=sc,
+                        extra_inconclusive=si)
     finally:
         shutil.rmtree(tmp, ignore_errors=True)
+
+
+SUITE_PROPS = ["C04", "C05", "C09", "C11", "C13", "C14", "C15", "C19"]
+
+
+def suite_run(pid, seed, tmp, ext_path, flavour):
+    """Run the repository's own tests with the monitors of qvmon.suite_plugin attached; returns
+    (violations for pid, coverage dict, inconclusive reasons)."""
+    import glob
+    import re
+    out = os.path.join(tmp, "suite")
+    env = boot.child_env(flavour, ext_path, {"QV_SUITE_OUT": out, "VERIF_SEED": str(seed)})
+    root = boot.repo_root()
+    env["PYTHONPATH"] = root + os.pathsep + HERE
+    cmd = [PY, "-m", "pytest", "-q", "-p", "no:cacheprovider", "-p", "qvmon.suite_plugin", "-n", os.environ.get("QV_JOBS", "16"),
+           "--timeout=900", "--deselect", "tests/utils/test_subgraph.py::test_subgraph",
+           "--deselect", "tests/utils/test_subgraph.py::test_subvalue"]
+    p = subprocess.run(cmd, cwd=root, env=env, capture_output=True, text=True, timeout=3600)
+    tail = (p.stdout.strip().splitlines() or [""])[-1]
+    m = re.search(r"(\d+) passed", tail)
+    passed = int(m.group(1)) if m else 0
+    failed = int(re.search(r"(\d+) failed", tail).group(1)) if re.search(r"(\d+) failed", tail) else 0
+    viol, cov, inc = [], {"suite_tests_passed": passed, "suite_tests_failed": failed}, []
+    mon, exc = collections.Counter(), collections.Counter()
+    files = glob.glob(out + ".*.json")
+    for f in files:
+        with open(f) as fh:
+            r = json.load(fh).get(pid)
+        if not r:
+            continue
+        mon.update(r["mon"])
+        exc.update(r["exc"])
+        viol.extend(r["violations"])
+    cov["suite_monitor_evaluations"] = dict(mon)
+    cov["suite_contracts_skipped"] = dict(exc)
+    if failed or passed < 390:
+        inc.append("repository tests under monitors: %s | %s" % (tail, p.stdout[-1500:].replace("\n", " | ")))
+    if not files or not sum(mon.values()):
+        inc.append("suite monitors for %s observed nothing (files=%d)" % (pid, len(files)))
+    return viol, cov, inc
 
 
 def conclude(mod, tier, seed, results, t0, replay=None, tmp=None, extra_cov=None,
